@@ -101,6 +101,43 @@ Theorem c17_methods :
   forall m, In m all_macros.
 Proof. split; [reflexivity|]. intros m; destruct m; cbn; tauto. Qed.
 
+(* ---- a whole process (Macro.run_process): the holder is set at most once, by whoever offers
+   first ([PSet]: the observed client, [PSetOther]: another one); what is observed of each
+   invocation is what the OBSERVED client's sink and handler saw, whether it panicked, and its
+   evaluation log ---- *)
+
+(* before any client is set every invocation panics, having evaluated, emitted and reported nothing *)
+Theorem c17_process_unset : forall cfg other steps script,
+  Forall (fun st => is_invoke st = true) steps ->
+  Forall (fun o => po_panicked o = true /\ po_emitted o = [] /\ po_handled o = [] /\ po_evals o = [])
+         (run_process cfg other None script steps).
+Proof. exact process_unset. Qed.
+
+(* once a client is set, later offers change nothing for any later invocation *)
+Theorem c17_process_set_once : forall cfg other b c steps script,
+  run_process cfg other (Some (b, c)) script steps =
+  run_process cfg other (Some (b, c)) script (filter is_invoke steps).
+Proof. exact process_set_once. Qed.
+
+(* with the observed client in the holder, the invocations of the process are, one after the
+   other, the tagged quiet sends on that client (same strings to its sink, same errors to its
+   handler, the sink's answers consumed in order); none panics *)
+Theorem c17_process_mine : forall cfg other steps script,
+  Forall2 (fun o r => po_panicked o = false /\
+                      match r with
+                      | Some x => po_stuck o = false /\ po_emitted o = o_emitted x /\ po_handled o = o_handled x
+                      | None => po_stuck o = true
+                      end)
+          (run_process cfg other (Some (true, cfg)) script steps)
+          (reference_sends cfg (invocations steps) script).
+Proof. exact process_mine. Qed.
+
+(* with another client in the holder, the observed client's sink and handler see nothing at all *)
+Theorem c17_process_other : forall cfg other c steps script,
+  Forall (fun o => po_panicked o = false /\ po_emitted o = [] /\ po_handled o = [])
+         (run_process cfg other (Some (false, c)) script steps).
+Proof. exact process_other. Qed.
+
 (* non-vacuity: statsd_time!("k", 7u64, "a" => "b", "c" => "d") on a client with prefix "p",
    a default tag and a refusing sink: one line, the handler sees the sink's error once *)
 Example c17_witness :
